@@ -1,12 +1,232 @@
 package main
 
-// tryConcreteReplay searches for a concrete failing input of the real code for a failed obligation group
-// (executable oracles per property). Returns true if one was found and recorded in the replay file.
+import (
+	"bufio"
+	"bytes"
+	"encoding/json"
+	"fmt"
+	"os"
+	"os/exec"
+	"path/filepath"
+	"sort"
+	"strings"
+	"time"
+)
+
+// Probes are in-package Go tests kept under /verif/probes/<property>/<package dir relative to /repo>/*_test.go.
+// They run the REAL code of /repo (current working tree, -tags verif so the executable spec functions are
+// available) on enumerated small inputs and compare with an oracle. They are injected with `go test -overlay`
+// (nothing is written into /repo). Test name conventions:
+//   TestProbe_<name>   must pass; a failure is a concrete failing input for the property
+//   TestKnown_<id>     reproduces a recorded known finding: it FAILS while the finding stands
+// Probe results are bounded runtime checks: reported separately, never counted as discharged obligations.
+
+type probeResult struct {
+	Pkg    string  `json:"package"`
+	Test   string  `json:"test"`
+	Pass   bool    `json:"pass"`
+	Output string  `json:"output"`
+	Secs   float64 `json:"seconds"`
+}
+
+func probeDirs(prop string) []string {
+	root := filepath.Join(verifDir, "probes", prop)
+	var dirs []string
+	filepath.Walk(root, func(p string, info os.FileInfo, err error) error {
+		if err == nil && !info.IsDir() && strings.HasSuffix(p, "_test.go") {
+			d := filepath.Dir(p)
+			for _, x := range dirs {
+				if x == d {
+					return nil
+				}
+			}
+			dirs = append(dirs, d)
+		}
+		return nil
+	})
+	sort.Strings(dirs)
+	return dirs
+}
+
+// runProbes runs every probe of a property against repo. filter: "" all, "Known" only TestKnown_*, "Probe" only TestProbe_*.
+func runProbes(repo, prop, filter string, seed int) []probeResult {
+	var out []probeResult
+	root := filepath.Join(verifDir, "probes", prop)
+	tmp, err := os.MkdirTemp("", "govc-probe-")
+	if err != nil {
+		return nil
+	}
+	defer os.RemoveAll(tmp)
+	for _, d := range probeDirs(prop) {
+		rel, _ := filepath.Rel(root, d)
+		ov := map[string]map[string]string{"Replace": {}}
+		files, _ := filepath.Glob(filepath.Join(d, "*_test.go"))
+		for _, f := range files {
+			ov["Replace"][filepath.Join(repo, rel, "zz_verifprobe_"+filepath.Base(f))] = f
+		}
+		b, _ := json.Marshal(ov)
+		ovPath := filepath.Join(tmp, sanitize(rel)+".json")
+		os.WriteFile(ovPath, b, 0o644)
+		run := "^Test(Probe|Known)_"
+		if filter != "" {
+			run = "^Test" + filter + "_"
+		}
+		cmd := exec.Command("go", "test", "-tags", "verif", "-overlay", ovPath, "-vet=off", "-count=1", "-timeout", "300s", "-run", run, "-json", "./"+rel+"/")
+		cmd.Dir = repo
+		cmd.Env = append(os.Environ(), "GOFLAGS=-mod=mod", "GOPROXY=off", fmt.Sprintf("VERIF_SEED=%d", seed))
+		var buf bytes.Buffer
+		cmd.Stdout = &buf
+		cmd.Stderr = &buf
+		start := time.Now()
+		_ = cmd.Run()
+		el := time.Since(start).Seconds()
+		outputs := map[string]*strings.Builder{}
+		status := map[string]string{}
+		sc := bufio.NewScanner(&buf)
+		sc.Buffer(make([]byte, 1<<20), 1<<24)
+		var raw strings.Builder
+		for sc.Scan() {
+			var ev struct {
+				Action, Test, Output string
+			}
+			line := sc.Bytes()
+			if json.Unmarshal(line, &ev) != nil {
+				raw.Write(line)
+				raw.WriteByte('\n')
+				continue
+			}
+			if ev.Test == "" {
+				if ev.Action == "output" {
+					raw.WriteString(ev.Output)
+				}
+				continue
+			}
+			if outputs[ev.Test] == nil {
+				outputs[ev.Test] = &strings.Builder{}
+			}
+			switch ev.Action {
+			case "output":
+				if outputs[ev.Test].Len() < 4000 {
+					outputs[ev.Test].WriteString(ev.Output)
+				}
+			case "pass", "fail", "skip":
+				status[ev.Test] = ev.Action
+			}
+		}
+		if len(status) == 0 {
+			// build failure or panic before any test finished
+			out = append(out, probeResult{Pkg: rel, Test: "(build)", Pass: false, Output: truncate(raw.String(), 4000), Secs: el})
+			continue
+		}
+		var names []string
+		for n := range outputs {
+			names = append(names, n)
+		}
+		sort.Strings(names)
+		for _, n := range names {
+			if strings.Contains(n, "/") {
+				continue
+			}
+			st, ok := status[n]
+			if !ok {
+				st = "fail" // started but never finished: crashed
+			}
+			out = append(out, probeResult{Pkg: rel, Test: n, Pass: st == "pass" || st == "skip", Output: truncate(outputs[n].String(), 4000), Secs: el})
+		}
+	}
+	return out
+}
+
+func truncate(s string, n int) string {
+	if len(s) > n {
+		return s[:n] + "...(truncated)"
+	}
+	return s
+}
+
+// tryConcreteReplay searches for a concrete failing input of the real code after an obligation failed: the
+// property's probes are run; if one fails its output (the failing input) is appended to the replay file.
 func tryConcreteReplay(repo, prop string, g *oblGroup, replayPath string) bool {
-	return false
+	res := cachedProbes(repo, prop)
+	var fails []probeResult
+	for _, r := range res {
+		if !r.Pass && strings.HasPrefix(r.Test, "TestProbe_") {
+			fails = append(fails, r)
+		}
+	}
+	if len(fails) == 0 {
+		return false
+	}
+	var rec map[string]any
+	if b, err := os.ReadFile(replayPath); err == nil {
+		json.Unmarshal(b, &rec)
+	}
+	if rec == nil {
+		rec = map[string]any{}
+	}
+	rec["concrete_failing_inputs"] = fails
+	rec["replayed_on_real_code"] = true
+	b, _ := json.MarshalIndent(rec, "", " ")
+	os.WriteFile(replayPath, b, 0o644)
+	return true
+}
+
+var probeCache = map[string][]probeResult{}
+
+func cachedProbes(repo, prop string) []probeResult {
+	if r, ok := probeCache[prop]; ok {
+		return r
+	}
+	r := runProbes(repo, prop, "", 1)
+	probeCache[prop] = r
+	return r
+}
+
+// knownFindingProbes runs the TestKnown_* probes: returns the ids whose finding still reproduces.
+func knownFindingProbes(repo, prop string, seed int) map[string]probeResult {
+	out := map[string]probeResult{}
+	for _, r := range runProbes(repo, prop, "Known", seed) {
+		if strings.HasPrefix(r.Test, "TestKnown_") {
+			out[strings.TrimPrefix(r.Test, "TestKnown_")] = r
+		}
+	}
+	return out
 }
 
 // runBounded runs the bounded stand-ins / runtime contract checks of the thorough tier. Returns #violations.
 func runBounded(repo, prop string, seed int, extra map[string]any) int {
-	return 0
+	res := runProbes(repo, prop, "Probe", seed)
+	probeCache[prop] = res
+	violations := 0
+	var summary []any
+	replayDir := filepath.Join(verifDir, "replays", prop)
+	os.MkdirAll(replayDir, 0o755)
+	for _, r := range res {
+		if !strings.HasPrefix(r.Test, "TestProbe_") && r.Test != "(build)" {
+			continue
+		}
+		summary = append(summary, map[string]any{"package": r.Pkg, "probe": r.Test, "pass": r.Pass, "seconds": r.Secs, "summary": lastLines(r.Output, 3)})
+		if !r.Pass {
+			violations++
+			path := filepath.Join(replayDir, "probe-"+sanitize(r.Test)+".json")
+			b, _ := json.MarshalIndent(map[string]any{"property": prop, "obligation": "bounded:" + r.Test, "kind": "bounded runtime check of the real code (concrete failing input below)", "package": r.Pkg, "output": r.Output}, "", " ")
+			os.WriteFile(path, b, 0o644)
+			fmt.Printf("VIOLATION property=%s replay=%s\n  bounded probe %s (%s) fails on the real code:\n%s\n", prop, path, r.Test, r.Pkg, indent(lastLines(r.Output, 6)))
+		}
+	}
+	extra["bounded_probes"] = summary
+	extra["bounded_note"] = "bounded runtime checks of the real code on enumerated small inputs against independent oracles / executable spec functions; labelled bounded, NOT counted in obligations/discharged"
+	return violations
+}
+
+func lastLines(s string, n int) string {
+	ls := strings.Split(strings.TrimSpace(s), "\n")
+	if len(ls) > n {
+		ls = ls[len(ls)-n:]
+	}
+	return strings.Join(ls, "\n")
+}
+
+func indent(s string) string {
+	return "    " + strings.ReplaceAll(s, "\n", "\n    ")
 }
